@@ -12,11 +12,13 @@ import (
 	"net/http"
 	"os"
 	"path/filepath"
+	"reflect"
 	"strings"
 	"sync"
 	"syscall"
 	"testing"
 	"time"
+	"unsafe"
 
 	"github.com/mdlayher/corerad/internal/config"
 	"github.com/mdlayher/corerad/internal/system"
@@ -272,12 +274,16 @@ func c20Run(r *vlib.Run, c *c20Case, dir string) {
 	fireSig := func() { lg.add("signal %s", c.Sig); sigC <- sig }
 	switch c.Stim {
 	case "signal":
-		if c.HoldLock {
+		tmu := c20TerminatorLock(srv)
+		if c.HoldLock && tmu == nil {
+			r.Count("terminator_has_no_lock_to_hold", 1)
+		}
+		if c.HoldLock && tmu != nil {
 			// Hold the terminator's own lock while the signal is delivered: the
 			// signal task cannot record terminate/reload until it is released, so no
 			// task may observe the cancellation before that (an order in the log,
 			// the 15 ms only give an early cancellation time to show).
-			srv.t.mu.Lock()
+			tmu.Lock()
 			fireSig()
 			time.Sleep(15 * time.Millisecond)
 			early := ""
@@ -287,7 +293,7 @@ func c20Run(r *vlib.Run, c *c20Case, dir string) {
 				}
 			}
 			lg.add("terminator_lock_released")
-			srv.t.mu.Unlock()
+			tmu.Unlock()
 			if early != "" {
 				r.Violation(c.ID, "cancelled-before-recorded", fmt.Sprintf("%s observed the cancellation while the signal had not yet been recorded as terminate/reload", early), det())
 				for _, st := range sts {
@@ -554,4 +560,31 @@ func TestVerifC20(t *testing.T) {
 		c20Run(r, c, dir)
 	}
 	_ = errors.New
+}
+
+// c20TerminatorLock finds the mutex, if there is one, that guards the
+// terminate/reload decision inside the Server (an implementation detail: found
+// by reflection so that an implementation without one still builds and runs —
+// the lock-held scenario is then skipped and counted).
+func c20TerminatorLock(srv *Server) sync.Locker {
+	v := reflect.ValueOf(srv).Elem().FieldByName("t")
+	for v.IsValid() && (v.Kind() == reflect.Pointer || v.Kind() == reflect.Interface) {
+		if v.IsNil() {
+			return nil
+		}
+		v = v.Elem()
+	}
+	if !v.IsValid() || v.Kind() != reflect.Struct || !v.CanAddr() {
+		return nil
+	}
+	for i := 0; i < v.NumField(); i++ {
+		f := v.Field(i)
+		switch f.Type() {
+		case reflect.TypeOf(sync.Mutex{}):
+			return (*sync.Mutex)(unsafe.Pointer(f.UnsafeAddr()))
+		case reflect.TypeOf(sync.RWMutex{}):
+			return (*sync.RWMutex)(unsafe.Pointer(f.UnsafeAddr()))
+		}
+	}
+	return nil
 }
